@@ -121,6 +121,43 @@ def rank_check(case):
     return Res(v, o=(ncol,), tr=ntr)
 
 
+# ------------------------------------------------------------------ full rank shared between collections of unequal sizes
+def svdcoll_cases(tier, seed):
+    ncs = list(range(2, 49)) + ([64, 96, 97, 192, 384, 385] if tier == "thorough" else [96, 385])
+    return [(nc,) for nc in ncs]
+
+
+def svdcoll_check(case):
+    nc, = case
+    rng = _rng(9, nc)
+    nt = nc + 3
+    D = rng.standard_normal((nc, nt))
+    scale = float(np.max(np.abs(D)))
+    v, ntr, splits = [], 0, set()
+    ks = range(1, nc) if nc <= 48 else sorted(set(list(range(1, 24)) + list(range(nc // 2 - 3, nc // 2 + 4)) + list(range(nc - 23, nc))))
+    for k in ks:
+        # two collections of k and nc - k channels, contiguous and interleaved; three collections for the small probes
+        layouts = [("contiguous", np.r_[np.zeros(k, int), np.ones(nc - k, int)])]
+        il = np.ones(nc, int)
+        il[np.round(np.linspace(0, nc - 1, k)).astype(int)] = 0
+        if np.sum(il == 0) == k:
+            layouts.append(("interleaved", il))
+        if nc <= 24 and k >= 2:
+            for j in range(1, k):
+                layouts.append(("three", np.r_[np.zeros(j, int), np.full(k - j, 5), np.full(nc - k, 2)]))
+        for lname, coll in layouts:
+            for rank in (nc, nc + 3):
+                out = voltage.svd_denoise_npx(D.copy(), rank=rank, collection=coll.copy())
+                ntr += 1
+                splits.add(tuple(np.bincount(coll)[np.unique(coll)]))
+                if out.shape != D.shape or not np.max(np.abs(out - D)) <= 1e-9 * scale:
+                    v.append(("svd:full-rank:unequal-collections", "svd_denoise_npx(rank=%d) on %d channels in collections of sizes %r (%s) changes the data by %.3g of its scale: "
+                              "a collection gets fewer components than it has channels" % (rank, nc, [int(n) for n in np.bincount(coll)[np.unique(coll)]], lname,
+                                                                                          float(np.max(np.abs(out - D))) / scale if out.shape == D.shape else -1)))
+                    return Res(v, o=(nc <= 48,), tr=ntr)
+    return Res(v, o=(nc <= 48, len(splits) > 3), tr=ntr)
+
+
 # ------------------------------------------------------------------ smoothers on constants
 def const_cases(tier, seed):
     N = 200 if tier == "quick" else 400
@@ -372,7 +409,11 @@ def venn_late_check(case):
 # ------------------------------------------------------------------ stack
 def stack_cases(tier, seed):
     L = 5 if tier == "quick" else 6
-    return [list(w) for w in itertools.product((0, 1, 2), repeat=L)]
+    out = [list(w) for w in itertools.product((0, 1, 2), repeat=L)]
+    # as many label values as traces (every trace its own label, in any order, is one of them), labels that are not 0..k-1
+    for n in range(1, 5 if tier == "quick" else 6):
+        out += [list(w) for w in itertools.product((7, -2, 30, 4, 11)[:n], repeat=n)]
+    return out
 
 
 def stack_check(word):
@@ -410,6 +451,8 @@ CHECK = {
     ],
     "clauses": [
         Clause("rank", "cadzow / SVD denoising at sufficient rank on every layout", cases=rank_cases, check=rank_check, setup=_setup),
+        Clause("svd-collections", "svd_denoise_npx at full rank with every split of the channels into collections of unequal sizes (contiguous, interleaved, three-way): input returned unchanged",
+               cases=svdcoll_cases, check=svdcoll_check, setup=_setup),
         Clause("constants", "lp and rolling_window on constants of every length", cases=const_cases, check=const_check, setup=_setup),
         Clause("savgol", "non_uniform_savgol reproduces polynomials up to its order", cases=savgol_cases, check=savgol_check, setup=_setup),
         Clause("savgol-lattice", "polynomials on integer time stamps with gaps (as produced by NaN removal)", cases=lattice_cases, check=lattice_check, setup=_setup),
